@@ -83,7 +83,18 @@ TSingle == /\ IsEvent("single") /\ Idle /\ l > 1
            /\ UNCHANGED <<p, ops, enabled, stepping, mode, hist>>
            /\ PostAgrees(Ev) /\ l' = l + 1
 TExecuteBegin == /\ IsEvent("execute") /\ Idle /\ l > 1 /\ Execute /\ UNCHANGED <<l, ovf>>
-TRun == /\ mode = "run" /\ Run /\ UNCHANGED ovf
+\* inside execute() no instruction is logged: an overflowing addition takes the value already observed for the same operands,
+\* otherwise one of the candidate semantics (saturate, zero, wrap); the logged post-state of the call prunes the wrong ones
+OvfCands(v, c) == {MaxWord, 0, v - (MaxWord - c) - 1}
+TRun == /\ mode = "run" /\ Cur.def
+        /\ \E val \in (IF OvfNow /\ OvfKey \notin DOMAIN ovf THEN OvfCands(OvfKey[1], OvfKey[2]) ELSE {0}) :
+             LET AWR(v, c) == IF Overflows(v, c) THEN (IF <<v, c>> \in DOMAIN ovf THEN ovf[<<v, c>>] ELSE val) ELSE AddWord(v, c)
+                 st == StepF(p, ops, ip, data, stack, stepping, AWR)
+             IN /\ Advance(st, AWR)
+                /\ mode' = (IF st.stop THEN "idle" ELSE "run")
+                /\ ret' = (IF st.stop THEN "none" ELSE ret)
+                /\ ovf' = IF OvfNow /\ OvfKey \notin DOMAIN ovf THEN ovf @@ (OvfKey :> val) ELSE ovf
+        /\ UNCHANGED <<p, ops, enabled, stepping, hist>>
         /\ IF mode' = "idle" THEN PostAgrees(Ev) /\ l' = l + 1 ELSE UNCHANGED l
 TSetBP == /\ IsEvent("bp") /\ l > 1 /\ SetBreakPoint(<<Ev.file, Ev.line>>, Ev.v)
           /\ PostAgrees(Ev) /\ l' = l + 1 /\ UNCHANGED ovf
